@@ -164,7 +164,7 @@ Lemma within3_iff r d : d < 4096 -> within3 r d = true <-> hamming r (encode24 d
 Proof. intros H. unfold within3. rewrite <- (enc24_spec d H). apply N.leb_le. Qed.
 
 Lemma golay_decode_some r o : golay_decode r = Some o <-> decode r = DOk o.
-Proof. unfold golay_decode. destruct (decode r); split; intros H; try discriminate H; congruence. Qed.
+Proof. unfold golay_decode. destruct (decode r); cbn [dres_output]; split; intros H; try discriminate H; congruence. Qed.
 
 Lemma decode_is_spec_lemma r : r < 2 ^ 24 ->
   option_map (fun o => N.shiftr o 12) (golay_decode r) = spec_decode r.
